@@ -12,7 +12,8 @@ func verifSubmitWindow(w *WorkerPool) {
 	}
 }
 
-// VerifStartHook, when set, is called by Start between waiting for a previous shutdown and taking the lock
+// VerifStartHook, when set, is called by Start before it waits for the workers of a previous run (it found them alive
+// under the lock and released the lock), i.e. in the window in which another caller can restart and stop the pool
 // (verification builds only).
 var VerifStartHook func(w *WorkerPool)
 
